@@ -32,7 +32,7 @@ impl Prop for C12 {
     fn runs(&self, tier: Tier) -> u64 {
         match tier {
             Tier::Quick => 1_000_000,
-            Tier::Thorough => 15_000_000,
+            Tier::Thorough => 4_000_000,
             Tier::Tiny => 200,
         }
     }
@@ -48,7 +48,7 @@ impl Prop for C12 {
         v.into_iter().map(String::from).collect()
     }
 
-    fn gen(&self, seed: u64, run: u64, _tier: Tier) -> Trace {
+    fn gen(&self, seed: u64, run: u64, tier: Tier) -> Trace {
         let mut rng = Rng::new(mix(seed, "C12", run));
         let queue = if rng.chance(1, 4) {
             QueueCfg::Vec
@@ -70,7 +70,7 @@ impl Prop for C12 {
         let w_clear = *rng.pick(&[0u32, 0, 1]);
         let w_len = *rng.pick(&[0u32, 1, 2]);
         let w_empty = *rng.pick(&[0u32, 1]);
-        let n = *rng.pick(&[3usize, 8, 20, 60, 150, 300]);
+        let n = if tier == Tier::Thorough && run % 8 == 7 { 3000 } else { *rng.pick(&[3usize, 8, 20, 60, 150, 300]) };
         let n = rng.urange(1, n);
         let mut k: i16 = 0;
         for _ in 0..n {
